@@ -160,6 +160,8 @@ func prototypes(s *svcSpec, r *Rng) [][][]byte {
 		xfer := func() []byte {
 			return []byte(r.Pick([]string{"STOR f", "RETR f", "LIST", "NLST", "APPE f", "MLSD"}) + "\r\n")
 		}
+		// a long burst of commands written ahead in one segment, the session ending right behind it
+		out = append(out, [][]byte{[]byte("USER anonymous\r\nPASS anonymous\r\n" + strings.Repeat(r.Pick([]string{"NOOP", "PWD", "SYST", "STAT /"})+"\r\n", r.Range(17, 120)) + "QUIT\r\n")})
 		out = append(out,
 			append(append([][]byte{}, login...), []byte("PASV\r\n"), pasvConnectMarker, xfer()),
 			append(append([][]byte{}, login...), []byte("PASV\r\n"), pasvConnectMarker, []byte("PASV\r\n"), pasvConnectMarker, xfer()),
